@@ -1037,4 +1037,40 @@ def kernel_via(ctx):
                        'stored angles instead of the ones read back from the attitude matrix, or '
                        'the state without the increment applied)'
                        % (mname, norm_text(v)[:70] if v is not None else 'None', mode))
+        # what the kernel path receives is what the caller supplied: every row, under its own label
+        # (round-10 seed C02-integrate-drops-stale-labels filtered the table by time label first)
+        par = m.params[1] if len(m.params) > 1 else None
+        ctx.need(par is not None, 'Integrator.%s has no data parameter' % mname)
+        rebound = [s_ for s_ in ast.walk(m.node) if isinstance(s_, (ast.Assign, ast.AugAssign)) and
+                   any(isinstance(t_, ast.Name) and t_.id == par
+                       for t_ in (s_.targets if isinstance(s_, ast.Assign) else [s_.target]))]
+        for c_ in [x for x in ast.walk(m.node) if isinstance(x, ast.Call) and
+                   norm_text(x.func) == 'self._integrate' and x.args]:
+            a0 = c_.args[0]
+            e0 = a0
+            # strip pure re-shaping of a Series into a one-row frame
+            while True:
+                if isinstance(e0, ast.Call) and isinstance(e0.func, ast.Attribute) and \
+                        e0.func.attr in ('to_frame', 'transpose', 'copy') and not e0.args:
+                    e0 = e0.func.value
+                elif isinstance(e0, ast.Attribute) and e0.attr == 'T':
+                    e0 = e0.value
+                else:
+                    break
+            plain = isinstance(e0, ast.Name) and e0.id == par
+            selects = any(isinstance(x, ast.Name) and x.id == par for x in ast.walk(a0)) and \
+                not plain
+            if not plain and not selects and not rebound:
+                ctx.need(False, 'Integrator.%s: argument `%s` of _integrate not read'
+                         % (mname, norm_text(a0)[:50]))
+            n += 1
+            ctx.ob('KERNEL-VIA', plain and not rebound, None,
+                   '%s hands its `%s` to _integrate as supplied' % (mname, par), f=m, node=c_,
+                   key='%s-arg' % mname,
+                   why='Integrator.%s passes `%s`%s to the kernel path, not the table the caller '
+                       'supplied: rows are selected / changed before integration, so the stored '
+                       'trajectory is not "the start time followed by every increment time exactly '
+                       'once" and depends on how the increments were split into calls'
+                       % (mname, norm_text(a0)[:50],
+                          (' (re-bound by `%s`)' % norm_text(rebound[0])[:60]) if rebound else ''))
     ctx.floor('KERNEL-VIA', n, 2, 'returns of the public entry points')
